@@ -3,6 +3,7 @@
 here=$(cd "$(dirname "$0")/.." && pwd)
 for d in $here/seeded/*/; do
   n=$(basename $d); id=${n%%-*}; name=${n#*-}
+  if grep -q '"retired"' $d/meta.json; then echo "$n RETIRED"; continue; fi
   res=$($here/tools/try_mutant.sh $id $name 2>&1)
   if echo "$res" | grep -q "^VIOLATION"; then st=CAUGHT; else st=MISSED; fi
   first=$(echo "$res" | grep "^violation" | head -1 | cut -c1-160)
